@@ -274,3 +274,12 @@ package control
 //@   loop 1
 //@     invariant 0 <= $iter && $iter < numToEvict && numToEvict < len(entries)
 //@     invariant forall k int {la(entries, k)} :: 0 <= k && k < len(entries) - $iter ==> heapAt(entries, k, len(entries) - $iter)
+
+// C07 (bounded re-asks): a re-ask enters dialSend one level deeper, and a call at the maximum depth
+// fails - "no rule set can loop forever" is this termination measure (MaxDnsLookupDepth - invokingDepth).
+//@ func (*DnsController).dialSend
+//@   anchorsonly
+//@   dyncalls noeffect
+//@   modifies *
+//@   at call dialSend#1 assert a2 == invokingDepth + 1 && invokingDepth < MaxDnsLookupDepth
+//@   ensures invokingDepth >= MaxDnsLookupDepth ==> err != nil
